@@ -65,6 +65,7 @@ class Engine:
     def __init__(self, tu, fname, fold_enums=False, again=True):
         self.tu = tu; self.fname = fname; self.fn = tu.fn(fname); self.fold = fold_enums
         self.again = again            # after the first loop iteration also explore one generic (havocked) iteration
+        self.open_paths = False       # for(;;): keep the paths that complete the generic iteration without leaving (they end in loop:open, no return)
         self.body = tu.body(fname)
         self.call_ids = {}            # CallExpr node id -> symbolic name
         per = {}
@@ -377,6 +378,8 @@ class Engine:
             if depth == 0 and self.again:
                 r.events.append(('loop', tag + ':again', st))
                 return self.run([body], r, lambda x: after_iter(x, 1), labels, exit_, lambda x: after_iter(x, 1))
+            if depth == 1 and self.open_paths:
+                r.events.append(('loop', tag + ':open', st)); return [self._end(r)]
             return []          # for(;;) leaves only through break/return
         def iterate(r):
             return self.run([body], r, after_iter, labels, exit_, after_iter)
@@ -473,6 +476,7 @@ def _fold(op, a, b):
     return None
 
 
-def summarise(tu, fname, fold_enums=False, again=True):
+def summarise(tu, fname, fold_enums=False, again=True, open_paths=False):
     e = Engine(tu, fname, fold_enums, again)
+    e.open_paths = open_paths
     return e, e.paths()
